@@ -140,3 +140,40 @@ Proof.
   repeat match goal with E : yopt y_bool (Some (YBool false)) = Ok ?x |- _ => cbn in E; inversion E; subst x; clear E end.
   match goal with E : match Some false with _ => _ end = Ok _ |- _ => discriminate E | _ => congruence end.
 Qed.
+
+(* ------------------------------------------------------------------ protocols agree on their widths *)
+Lemma all_equal_spec {A} (f : A -> Z) l : all_equal (map f l) = true -> forall p q, In p l -> In q l -> f p = f q.
+Proof.
+  destruct l as [|p0 ps]; [discriminate|]. cbn. intros AE.
+  assert (Hall : forall x, In x (p0 :: ps) -> f x = f p0).
+  { intros x [<-|Hx]; [reflexivity|]. rewrite forallb_forall in AE. specialize (AE (f x) (in_map _ _ _ Hx)). lia. }
+  intros p q Hp Hq. rewrite (Hall p Hp), (Hall q Hq). reflexivity.
+Qed.
+
+Definition of_kind (k : string) (p : proto) : bool := match p_type p with Some x => str_eqb x k | None => false end.
+
+(* axi networks: all protocols have one data width and one user width, whatever their (optional) type labels;
+   narrow-wide networks: every protocol has a type, and the narrow (wide) ones agree among themselves *)
+Theorem parse_desc_widths v d : parse_desc v = Ok d ->
+  (d_nw d = false -> forall p q, In p (d_protos d) -> In q (d_protos d) -> p_data p = p_data q /\ p_user p = p_user q) /\
+  (d_nw d = true ->
+     (forall p, In p (d_protos d) -> p_type p <> None) /\
+     forall k, k = "narrow" \/ k = "wide" -> forall p q, In p (d_protos d) -> In q (d_protos d) ->
+       of_kind k p = true -> of_kind k q = true -> p_data p = p_data q /\ p_user p = p_user q).
+Proof.
+  unfold parse_desc. intros H. inv_bind H.
+  match type of H with Ok ?r = Ok _ => inversion H; subst d; clear H end. cbn [d_nw d_protos].
+  match goal with E : (if ?nw then _ else _) = Ok _ |- _ => rename E into Hw end.
+  split; intros Hnw; subst; cbn in Hw.
+  - repeat match type of Hw with (if negb ?c then _ else _) = _ => let X := fresh "W" in destruct c eqn:X; cbn [negb] in Hw; [|discriminate] end.
+    intros p q Hp Hq. split; [exact (all_equal_spec p_data _ W p q Hp Hq)|exact (all_equal_spec p_user _ W0 p q Hp Hq)].
+  - repeat match type of Hw with (if negb ?c then _ else _) = _ => let X := fresh "W" in destruct c eqn:X; cbn [negb] in Hw; [|discriminate] end.
+    split.
+    + intros p Hp. rewrite forallb_forall in W3. specialize (W3 p Hp). destruct (p_type p); [discriminate|discriminate W3].
+    + assert (Hf : forall k x, In x a5 -> of_kind k x = true ->
+                     In x (filter (fun p0 => match p_type p0 with Some x0 => str_eqb x0 k | None => false end) a5))
+        by (intros k x Hx Hk; apply filter_In; split; assumption).
+      intros k [-> | ->] p q Hp Hq Kp Kq.
+      * split; [exact (all_equal_spec p_data _ W p q (Hf _ p Hp Kp) (Hf _ q Hq Kq))|exact (all_equal_spec p_user _ W1 p q (Hf _ p Hp Kp) (Hf _ q Hq Kq))].
+      * split; [exact (all_equal_spec p_data _ W0 p q (Hf _ p Hp Kp) (Hf _ q Hq Kq))|exact (all_equal_spec p_user _ W2 p q (Hf _ p Hp Kp) (Hf _ q Hq Kq))].
+Qed.
